@@ -272,7 +272,8 @@ impl Evaluator {
                 & !state.board().occupancy()
                 & !state.board().colored_attacks(!state.turn_to_move());
 
-            valid_king_squares.any()
+            // In check, squares behind the king on the checking ray look safe but are not
+            !state.is_check() && valid_king_squares.any()
         };
 
         // If the king can move, we're definitely not in checkmate or stalemate, so we can
